@@ -7,6 +7,8 @@ setState / non-negative compare everything must be equal except (DESIGN section 
   * BLOCK_FAILED_CHILD on every descendant of X (side forks included),
   * raised validity levels (MAYBE / full) on the blocks of the target branch below X,
   * the tip-candidate set that follows (X and its descendants leave it, parent(X) may enter it);
+  * the validity LEVEL of a VBK/BTC block may be raised, all its other status bits and fields unchanged (only seen with
+    competing SP forks: the SP fork activated while the target branch was applied keeps its "can be applied" level);
 after a true setState / negative compare the target is the tip, exactly root..tip is applied
 (BLOCK_ACTIVE flags, appliedBlockCount) and every block of the active chain is fully valid.
 Fault enumeration: for generated branch shapes one invalid payload is planted at every command-group
